@@ -285,7 +285,7 @@ def collect(scenarios, encoders=None, with_lines=True):
 
 
 def n_scenarios(tier):
-    return 32 if tier == "quick" else 160
+    return 38 if tier == "quick" else 160
 
 
 def get_traces(seed, tier, verbose=True):
